@@ -376,6 +376,18 @@ func TestRepeatPrograms(t *testing.T) {
 			}
 		case 0, 1: // values built from external data: parsed JSON displayed, iterated, re-generated, compared
 			c.Text = genJSONDoc(t, 2)
+			if rapid.IntRange(0, 3).Draw(t, "deep") == 0 {
+				// the same document below many enclosing containers (depth limits of decoders)
+				levels := rapid.SampledFrom([]int{1, 10, 31, 32, 63, 64, 65, 100, 127, 128, 129, 300}).Draw(t, "levels")
+				for i := 0; i < levels; i++ {
+					if i%2 == 0 || i == levels-1 {
+						c.Text = "{\"w\":" + c.Text + ",\"v\":0}"
+					} else {
+						c.Text = "[" + c.Text + "]"
+					}
+				}
+				labels = append(labels, "deeply-nested-json")
+			}
 			c.Src = "导入《@JSON》\n输入文\n令典 = （解析JSON：文）\n（显示：典）\n以键、值遍历典：\n    （显示：键、值）\n（显示：典之所有索引、典之所有值）\n（显示：（生成JSON：典））\n输出典 为 （解析JSON：（生成JSON：典））"
 			labels = append(labels, "parsed-json")
 		case 2: // dictionary literals: display, iteration, equality, search
